@@ -93,6 +93,7 @@ type vpProto struct {
 	name     string
 	port     int
 	started  bool
+	startErr error         // sticky: run() must never be launched twice
 	run      func()        // the real run()
 	udpCount func() uint64 // atomic load of stats.UDPCount
 	decCount func() uint64 // atomic load of stats.DecodedCount
@@ -421,6 +422,17 @@ func (p *vpProto) start() error {
 	if p.started {
 		return nil
 	}
+	if p.startErr != nil {
+		return p.startErr
+	}
+	if err := p.start1(); err != nil {
+		p.startErr = err
+		return err
+	}
+	return nil
+}
+
+func (p *vpProto) start1() error {
 	go p.run()
 	c, err := net.DialUDP("udp4", &net.UDPAddr{IP: net.IPv4(127, 0, 0, 1)},
 		&net.UDPAddr{IP: net.IPv4(127, 0, 0, 1), Port: p.port})
